@@ -114,11 +114,139 @@ def run(ctx: Ctx):
             ctx.disagreement(d, f"model matcher and re.match differ for pattern {d['pattern']!r}")
         ctx.selfcheck_pairs += pairs[:2]
     ctx.sample({"pattern": "*a.", "subject": "ba.", "excluded": FileFilter(Config((conv("*a."),))).is_excluded("ba.")})
+    run_tree_part(ctx)
     ctx.exhaustive = True
     ctx.rule = (f"(a) converter: all {len(strings_upto(PAT_ALPHA, lp_conv))} patterns of length<={lp_conv} over {PAT_ALPHA!r} + random wide-charset patterns, output string compared; "
                 f"match: all patterns length<={lp} x all subjects length<={ls} over {SUB_ALPHA!r} through the real FileFilter vs model matcher and vs the four-case oracle (newline-free subjects); "
-                "non-trivial = pattern that excludes some but not all subjects / pattern containing a metacharacter or inner star")
+                "non-trivial = pattern that excludes some but not all subjects / pattern containing a metacharacter or inner star; "
+                "(b) random project trees (file names with regex metacharacters included) x exclusion tuples built from the tree's own paths in the glob shapes (full path, *name, */name, prefix*, *stem*, */dir/*) "
+                "or their regex translations: filtered scan vs unfiltered scan minus everything at or below an excluded path (documented glob meaning decides what is excluded), imports between remaining modules "
+                "unchanged (known finding K2 aside), and vs the model scan with the exclusion oracle taken from the real re on the real paths")
     ctx.notes.append("file names containing a newline are outside the theorem (hypothesis no_newline); the matcher model still covers them and is compared with re")
+
+
+# --------------------------------------------------------------------------
+# part (b): exclusions on real trees
+
+
+def _tree_job(args):
+    import os
+    import random
+    import re
+    from harness import common, rules, scan
+    conv, FileFilter, Config = _impl_funcs()
+    seed, n = args
+    rng = random.Random(seed)
+    out = dict(n=0, nontrivial=0, stats={}, violations=[], disagreements=[], pairs=[], samples=[], known=[])
+    for it in range(n):
+        root, dirs, files = scan.gen_tree(rng, max_depth=4)
+        scan.gen_imports(rng, dirs, files, nested=False)
+        # a few file names with regex metacharacters that are legal in file names (never import targets)
+        for d in list(dirs):
+            if rng.random() < 0.25:
+                nm = rng.choice(["a+b", "x(1)", "b$", "c[0]", "q^q"])
+                if d + (nm,) not in files:
+                    files[d + (nm,)] = {"py": True, "body": []}
+        base = scan.materialise(dirs, files)
+        try:
+            mp = rng.choice([(root,), (root,)] + [d for d in dirs if len(d) == 2])
+            # (exclusions=() with regex_exclusions=None is rejected by the library with a TypeError: an impossible pattern instead)
+            unf = scan.real_scan(base, root, mp, exclusions=("zzzzNEVERzzzz",))
+            if unf[0] != "OK":
+                out["violations"].append((dict(error=unf[1]), "unfiltered scan failed", {"kind": "scan_error"}))
+                continue
+            paths = {}
+            for p in list(dirs) + list(files):
+                is_file = p in files
+                suffix = (".py" if files[p]["py"] else ".txt") if is_file else ""
+                paths[p] = os.path.join(str(base), *p[:-1], p[-1] + suffix) if is_file else os.path.join(str(base), *p)
+            for trial in range(4):
+                tgt = rng.choice([p for p in paths if len(p) > len(mp) or rng.random() < 0.1] or list(paths))
+                nm = os.path.basename(paths[tgt])
+                stem = tgt[-1]
+                shapes = [paths[tgt], "*" + nm, "*/" + nm, paths[tgt][:len(paths[tgt]) - len(nm)] + stem[:1] + "*", "*" + stem + "*", "*/" + stem + "/*", "*" + stem[:2] + "*"]
+                globs = tuple(rng.sample(shapes, rng.randint(1, 2)))
+                use_regex = rng.random() < 0.35
+                rxs = tuple(conv(g) for g in globs)
+                kw = dict(exclusions=(), regex_exclusions=rxs) if use_regex else dict(exclusions=globs)
+                flt = scan.real_scan(base, root, mp, **kw)
+                out["n"] += 1
+                case = dict(dirs=[list(d) for d in dirs], files={scan.dotted(f): (scan.render_file(v["body"]) if v["py"] else None) for f, v in files.items()},
+                            module_path=list(mp), options={k: list(v) for k, v in kw.items()})
+                if flt[0] != "OK":
+                    out["violations"].append((dict(case, error=flt[1]), f"filtered scan failed: {flt[1]}", {"kind": "scan_error"}))
+                    continue
+                # which paths the documented glob meaning excludes
+                excluded = {p for p, s in paths.items() if any(glob_oracle(g, s) for g in globs)}
+                if any(mp[:i] in excluded and i == len(mp) for i in range(1, len(mp) + 1)):
+                    out["stats"]["module_path_excluded"] = out["stats"].get("module_path_excluded", 0) + 1
+                    continue          # outside the claim (DESIGN 3): the architecture is empty
+
+                def gone(modname):
+                    t = tuple(modname.split("."))
+                    return any(t[:i] in excluded for i in range(len(mp), len(t) + 1))
+                exp_mods = [m for m in unf[1] if not gone(m)]
+                if flt[1] != exp_mods:
+                    out["violations"].append((dict(case, modules=flt[1], documented=exp_mods, surplus=sorted(set(flt[1]) - set(exp_mods)), missing=sorted(set(exp_mods) - set(flt[1]))),
+                                              f"exclusions {globs}: remaining modules are not exactly the non-excluded ones", {"kind": "excl_modules"}))
+                    continue
+                remaining = set(exp_mods)
+                exp_edges = sorted((a, b) for a, b in unf[2] if a in remaining and b in remaining)
+                surplus = sorted(set(flt[2]) - set(exp_edges))
+                missing = sorted(set(exp_edges) - set(flt[2]))
+                k2 = []
+                for (u, P) in list(surplus):
+                    # K2: 'from P import n' in u where P.n is excluded names P in the filtered scan only
+                    body = files.get(tuple(u.split(".")), {}).get("body", [])
+                    def explains(s):
+                        if s[0] != "from":
+                            return False
+                        _, lvl, mod, names = s
+                        if lvl == 0:
+                            return mod == P and any(gone(P + "." + nmx) for nmx in names)
+                        pkg = tuple(u.split("."))[:-1]
+                        b = ".".join(pkg[:len(pkg) - lvl + 1])
+                        return mod is not None and b + "." + mod == P and any(gone(P + "." + nmx) for nmx in names)
+                    if any(explains(s) for s in body):
+                        k2.append((u, P))
+                        surplus.remove((u, P))
+                if surplus or missing:
+                    out["violations"].append((dict(case, edges_surplus=surplus, edges_missing=missing),
+                                              f"exclusions {globs}: imports between remaining modules differ from the scan without the pattern", {"kind": "excl_edges"}))
+                    continue
+                for e in k2:
+                    out["known"].append((dict(case, surplus_edge=list(e)), f"excluded sub module imported through 'from {e[1]} import n': edge {e[0]}->{e[1]} appears only in the filtered scan",
+                                         {"kind": "from_import_of_excluded_submodule"}))
+                if excluded and len(exp_mods) < len(unf[1]):
+                    out["nontrivial"] += 1
+                enc = rules.Enc()
+                table = scan.excluded_table(str(base), dirs, files, rxs)
+                wcase = scan.model_scan_case(enc, root, dirs, files, mp, excluded_paths=table)
+                m = common.model_run([wcase])[0]
+                d = scan.dec_scan(enc, m)
+                if d is None or d[0] != "OK" or d[1] != flt[1] or d[2] != flt[2]:
+                    out["disagreements"].append((dict(case, impl_modules=flt[1], impl_edges=flt[2], model=str(d)[:500]), "model scan and real scan differ under exclusions"))
+                if not out["pairs"]:
+                    out["pairs"].append((wcase, m))
+            if not out["samples"]:
+                out["samples"].append(dict(dirs=[scan.dotted(d) for d in dirs], files=[scan.dotted(f) for f in files]))
+        finally:
+            scan.cleanup(base)
+    return out
+
+
+def run_tree_part(ctx: Ctx):
+    from harness import rules
+    n = 160 if ctx.quick else 4000
+    per = 10
+    jobs = [(ctx.rng.randrange(1 << 30), per) for _ in range(n // per)]
+    with Pool(NCPU) as pool:
+        rs = pool.map(_tree_job, jobs, chunksize=1)
+    for r in rs:
+        for case, what, tags in r.pop("known"):
+            ctx.violation(case, what, tags)
+        rules.merge_into(ctx, r)
+    ctx.stat("tree_projects", n)
 
 
 def replay(ctx: Ctx, path: str) -> int:
